@@ -431,6 +431,9 @@ impl TransportHandle {
 
         for (peer_id, peer_info) in peers.iter() {
             for peer_addr in &peer_info.addresses {
+                // Registered addresses are `NetworkAddress` renderings ("ip:port (four-words)"):
+                // compare on the socket-address part.
+                let peer_addr = peer_addr.split(" (").next().unwrap_or(peer_addr);
                 if let Ok(peer_socket) = peer_addr.parse::<SocketAddr>()
                     && peer_socket == socket_addr
                 {
